@@ -7,8 +7,22 @@ inline void WriteLE32(unsigned char* ptr, uint32_t x) { ptr[0] = (unsigned char)
 class CScriptBaseStub : public verif_scriptbytes {
 public:
     // prevector::insert(pos, value) and insert(pos, first, last), used at end() only by the sliced code
+#ifdef H_ENC_LENGTH_ONLY
+    // prefix/length query (storage is large enough for every pointer to stay in bounds; no loop runs over the capacity):
+    // a payload longer than 8 bytes is accounted for by LENGTH only, the push prefix written before it is modelled exactly
+    void insert(unsigned char* p, const unsigned char& v) { unsigned char c = v; __CPROVER_assert(p == s.a + n, "std::vector precondition: insert position valid"); VERIF_LIMIT(n < VERIF_SCRIPT_CAP, "byte vector storage capacity"); s.a[n] = c; n = n + 1; }
+    void insert(unsigned char* p, int v) { unsigned char c = (unsigned char)v; insert(p, c); }
+    void insert(unsigned char* p, const unsigned char* b, const unsigned char* e) {
+        size_t k = (size_t)(e - b);
+        __CPROVER_assert(p == s.a + n, "std::vector precondition: insert position valid");
+        VERIF_LIMIT(n + k <= VERIF_SCRIPT_CAP, "byte vector storage capacity");
+        if (k <= 8) { for (size_t i = 0; i < 8; ++i) if (i < k) s.a[n + i] = b[i]; }
+        n = n + k;
+    }
+#else
     void insert(unsigned char* p, const unsigned char& v) { verif_scriptbytes::insert(p, v); }
     void insert(unsigned char* p, int v) { unsigned char c = (unsigned char)v; verif_scriptbytes::insert(p, c); }
     void insert(unsigned char* p, const unsigned char* b, const unsigned char* e) { verif_scriptbytes::insert(p, b, e); }
+#endif
 };
 int verif_expect_throw; int verif_thrown;
